@@ -87,14 +87,45 @@ void interleaved(vf::Ctx& c, int depth, int prefix) {   // prefix = first two op
   }
 }
 
-uint64_t vf_ncases(const std::string& tier) { return cfgs(tier == "thorough").size() + 324; }
+
+// ---- T: trajectories on ONE long-lived converter: consecutive positions a graded small step apart; the inverse must stay exact at every fix ---
+void trajectory(vf::Ctx& c, int which, bool th) {
+  const double eG = 0.0818191910428158, eC = 0.08248325676;
+  LambertConverter conv = which == 0 ? LambertConverter(LambertConverter::SecantProjectionParameters{3 * D, 46.5 * D, 44 * D, 49 * D, 700000, 6600000}, EarthEllipsoid(6378137.0, 6378137.0 * std::sqrt(1 - eG * eG)))
+                        : which == 1 ? LambertConverter(LambertConverter::TangentProjectionParameters{46.8 * D, 2.337229166 * D, 0.99987742, 600000, 2200000}, EarthEllipsoid(6378249.2, 6378249.2 * std::sqrt(1 - eC * eC)))
+                                     : LambertConverter(LambertConverter::SecantProjectionParameters{-63 * D, -30 * D, -25 * D, -35 * D, 0, 0}, EarthEllipsoid(6378137.0, 6378137.0 * std::sqrt(1 - eG * eG)));
+  double lat0 = which == 2 ? -31.2 * D : 45.78 * D, lon0 = which == 2 ? -61.0 * D : 3.08 * D;
+  const double steps[] = {1e-12, 1e-10, 1e-9, 1e-8, 1.6e-7, 6.3e-7, 2e-6, 1e-5, 1e-4, 1e-3};   // rad: 6 um .. 6 km
+  int len = th ? 1500 : 150;
+  for (double s : steps) for (int dir = 0; dir < 3; ++dir) for (int pat = 0; pat < 2; ++pat) {
+    for (int i = 0; i < len; ++i) {
+      double f = pat == 0 ? (double)i : (double)((i % 2) ? (i + 1) / 2 : -(i / 2));
+      double lat = lat0 + (dir != 1 ? f * s : 0), lon = lon0 + (dir != 0 ? f * s : 0);
+      if (std::fabs(lat - lat0) > 8 * D || std::fabs(lon - lon0) > 30 * D) break;
+      c.eval(); c.nontrivial(); c.transitions();
+      Eigen::Vector2d p = conv.toLambert(WGS84Coordinates{lat, lon});
+      WGS84Coordinates w = conv.toWGS84(p);
+      c.obs(w.latitude); c.obs(w.longitude);
+      long double el = fabsl((long double)w.latitude - lat), eo = fabsl((long double)w.longitude - lon);
+      c.note_max("trajectory_inverse_lat_err_rad", (double)el);
+      if (!(el <= 1e-11L) || !(eo <= 1e-11L)) {
+        c.violation("LambertConverter.toWGS84.inverse", vf::JO().str("explorer", "trajectory").i("converter", which).num("step_rad", s).str("direction", dir == 0 ? "north" : dir == 1 ? "east" : "north-east").str("pattern", pat ? "back-and-forth" : "drift").i("fix", i).done(), vf::JO().num("lat_err", el).num("lon_err", eo).done());
+        break;
+      }
+    }
+    c.traces();
+  }
+}
+
+uint64_t vf_ncases(const std::string& tier) { return cfgs(tier == "thorough").size() + 324 + 3; }
 
 std::string cfg_json(const Cfg& k) {
   return vf::JO().str("zone", k.name).b("tangent", k.tangent).num("e", k.e).num("lat0_deg", k.lat0 / D).num("lat1_deg", k.lat1 / D).num("lat2_deg", k.lat2 / D).num("lon0_deg", k.lon0 / D).num("k0", k.k0).num("x0", k.x0).num("y0", k.y0).done();
 }
-std::string vf_case_params(uint64_t idx, const std::string& tier) { if (idx >= cfgs(tier == "thorough").size()) return vf::JO().str("explorer", "interleaved converters").u("first_two_operations", idx - cfgs(tier == "thorough").size()).done(); return cfg_json(cfgs(tier == "thorough")[idx]); }
+std::string vf_case_params(uint64_t idx, const std::string& tier) { if (idx >= cfgs(tier == "thorough").size() + 324) return vf::JO().str("explorer", "trajectory").u("converter", idx - cfgs(tier == "thorough").size() - 324).done(); if (idx >= cfgs(tier == "thorough").size()) return vf::JO().str("explorer", "interleaved converters").u("first_two_operations", idx - cfgs(tier == "thorough").size()).done(); return cfg_json(cfgs(tier == "thorough")[idx]); }
 
 void vf_run(uint64_t idx, const std::string& tier, vf::Ctx& c) {
+  if (idx >= cfgs(tier == "thorough").size() + 324) { trajectory(c, (int)(idx - cfgs(tier == "thorough").size() - 324), tier == "thorough"); return; }
   if (idx >= cfgs(tier == "thorough").size()) { interleaved(c, tier == "thorough" ? 6 : 3, (int)(idx - cfgs(tier == "thorough").size())); return; }
   const Cfg& k = cfgs(tier == "thorough")[idx];
   double b = k.a * std::sqrt(1 - k.e * k.e);
@@ -167,6 +198,7 @@ std::string vf_describe(const std::string& tier) {
   o.str("tangent", "phi0 15..75 (both hemispheres), k0 in {0.99, 0.99987734, 1}");
   o.str("named_zones", "Lambert-93, CC42..CC50, Lambert I, II, III, IV, II etendu");
   o.str("points", "dlat {0,+-1,+-4,+-8} deg x dlon {0,+-1,+-10,+-30} deg around the projection origin; standard parallels at dlon {0,7,-25} deg");
+  o.str("trajectories", std::string("three long-lived converters (Lambert-93, Lambert II etendu, a southern secant cone): consecutive fixes {1e-12,1e-10,1e-9,1e-8,1.6e-7,6.3e-7,2e-6,1e-5,1e-4,1e-3} rad apart (6 um .. 6 km) x {north, east, north-east} x {drift, widening back-and-forth} x ") + (th ? "1500" : "150") + " fixes; forward then inverse at every fix within 1e-11 rad");
   o.str("interleaving", th ? "three long-lived converters (Lambert-93/GRS80, Lambert II etendu/Clarke 1880, a southern secant cone on the sphere), every sequence of 6 calls over {toLambert x3 points, toWGS84 x3 points} x 3 converters, each result bit-equal to the same call on a fresh isolated converter" : "three long-lived converters (Lambert-93/GRS80, Lambert II etendu/Clarke 1880, a southern secant cone on the sphere), every sequence of 3 calls over {toLambert x3 points, toWGS84 x3 points} x 3 converters, each result bit-equal to the same call on a fresh isolated converter");
   o.str("oracle", "central differences (1e-5 rad) of the library forward map: |h-k|<=1e-8, meridian/parallel images orthogonal (1e-8) and positively oriented, scale 1 (k0) on the standard parallel(s) within 1e-8; origin and central meridian within 1 micrometre; inverse within 1e-11 rad; termination by watchdog");
   return o.done();
